@@ -7,6 +7,7 @@ import (
 	"fmt"
 	"sort"
 	"strings"
+	"sync"
 	"testing/synctest"
 	"time"
 
@@ -95,8 +96,23 @@ func genOp(t *rapid.T, l layoutSpec, kinds []string, n *int) opSpec {
 }
 
 // buildCall creates the hrpc call for an op through the public constructors.
+// sharedTable returns the table name as a slice with spare capacity that every call of the
+// process shares (applications keep table names in reused buffers: buf[:n]); the bytes beyond its
+// length belong to the caller, so nothing may ever be written there.
+var tableSlices sync.Map
+
+func sharedTable(table string) []byte {
+	if v, ok := tableSlices.Load(table); ok {
+		return v.([]byte)
+	}
+	b := make([]byte, len(table), len(table)+160)
+	copy(b, table)
+	v, _ := tableSlices.LoadOrStore(table, b)
+	return v.([]byte)
+}
+
 func buildCall(ctx context.Context, table string, op opSpec, opts ...func(hrpc.Call) error) (hrpc.Call, error) {
-	tb := []byte(table)
+	tb := sharedTable(table)
 	if op.Key == nil {
 		// a nil row is not a request (the protobuf row field is required); the empty row
 		// is the smallest key
@@ -126,13 +142,23 @@ func checkOpResult(op opSpec, msg any) error {
 		if !ok {
 			return fmt.Errorf("response is %T, not GetResponse", msg)
 		}
-		return checkEcho(hrpc.ToLocalResult(r.Result), op.Key, op.Marker)
+		lr := hrpc.ToLocalResult(r.Result)
+		if e := checkEcho(lr, op.Key, op.Marker); e != nil {
+			return e
+		}
+		retain(lr, op.Key, op.Marker)
+		return nil
 	case "app":
 		r, ok := msg.(*pb.MutateResponse)
 		if !ok {
 			return fmt.Errorf("response is %T, not MutateResponse", msg)
 		}
-		return checkEcho(hrpc.ToLocalResult(r.Result), op.Key, op.Marker)
+		lr := hrpc.ToLocalResult(r.Result)
+		if e := checkEcho(lr, op.Key, op.Marker); e != nil {
+			return e
+		}
+		retain(lr, op.Key, op.Marker)
+		return nil
 	case "inc":
 		r, ok := msg.(*pb.MutateResponse)
 		if !ok {
@@ -162,6 +188,42 @@ func checkOpResult(op opSpec, msg any) error {
 }
 
 // doOp issues a single call through the client's typed API and checks it.
+// Results handed to callers are retained for the rest of the case and verified once more at its
+// end: what a caller was given stays what it is, whatever traffic follows on the same client
+// (responses decoded in place, pooled or reused buffers).
+type retainedResult struct {
+	res    *hrpc.Result
+	key    []byte
+	marker string
+}
+
+var retainedMu sync.Mutex
+var retained []retainedResult
+
+func retain(r *hrpc.Result, key []byte, marker string) {
+	retainedMu.Lock()
+	retained = append(retained, retainedResult{r, key, marker})
+	retainedMu.Unlock()
+}
+
+func resetRetained() {
+	retainedMu.Lock()
+	retained = nil
+	retainedMu.Unlock()
+}
+
+// recheckRetained verifies every retained result again; n is how many were checked.
+func recheckRetained() (n int, err error) {
+	retainedMu.Lock()
+	defer retainedMu.Unlock()
+	for _, r := range retained {
+		if e := checkEcho(r.res, r.key, r.marker); e != nil {
+			return len(retained), fmt.Errorf("a result that was correct when its call returned has changed since: %v", e)
+		}
+	}
+	return len(retained), nil
+}
+
 func doOp(cl gohbase.Client, ctx context.Context, table string, op opSpec) (err error, checkErr error) {
 	call, cerr := buildCall(ctx, table, op)
 	if cerr != nil {
@@ -173,7 +235,11 @@ func doOp(cl gohbase.Client, ctx context.Context, table string, op opSpec) (err 
 		if e != nil {
 			return e, nil
 		}
-		return nil, checkEcho(r, op.Key, op.Marker)
+		if ce := checkEcho(r, op.Key, op.Marker); ce != nil {
+			return nil, ce
+		}
+		retain(r, op.Key, op.Marker)
+		return nil, nil
 	case "put":
 		_, e := cl.Put(call.(*hrpc.Mutate))
 		return e, nil
@@ -185,7 +251,11 @@ func doOp(cl gohbase.Client, ctx context.Context, table string, op opSpec) (err 
 		if e != nil {
 			return e, nil
 		}
-		return nil, checkEcho(r, op.Key, op.Marker)
+		if ce := checkEcho(r, op.Key, op.Marker); ce != nil {
+			return nil, ce
+		}
+		retain(r, op.Key, op.Marker)
+		return nil, nil
 	case "cas":
 		ok, e := cl.CheckAndPut(call.(*hrpc.Mutate), "f", op.Marker, []byte("expected"))
 		if e != nil {
